@@ -65,11 +65,17 @@ static void os_create_hook(void *(*fn)(void *), void *arg);
 #else
 #define os_create_hook(fn, arg) ((void) 0)
 #endif
+#ifdef OS_CREATE_FAIL_HOOK
+static int os_create_fail_hook(void);	/* non-zero: pthread_create fails with that error code, nothing is created */
+#else
+#define os_create_fail_hook() 0
+#endif
 static pthread_t G_os_self = (pthread_t) 77;
 pthread_t pthread_self(void) { return G_os_self; }
 int pthread_create(pthread_t *t, const pthread_attr_t *a, void *(*fn)(void *), void *arg)
 {
 	(void) a; (void) fn; (void) arg;
+	{ int e = os_create_fail_hook(); if (e) return e; }
 	os_create_hook(fn, arg);
 	*t = (pthread_t) (++G_os_thread_created);
 	return 0;
